@@ -447,6 +447,94 @@ def check_edgecells(ctx):
                                   % (edge, w, wf_, rtab[edge], rf_)), oid=edge)
 
 
+def check_byteorder(ctx, rule='R-BYTEORDER'):
+    """every value a CAMx writer emits (tobytes / tofile) has its byte order fixed by the writer: the outermost conversion is
+    astype('>..') / array(.., dtype='>..'), or the value is (an element of) a header array allocated with a big-endian record type.
+    A value taken from an attribute of the input file and emitted as it is has the byte order of the machine (numpy scalars are
+    native): the bytes differ from what was read, and the attribute does not survive write/read."""
+    from .. import paths as _paths
+    src = ctx.src
+    n = nbad = 0
+    for rp in sorted(src.relpaths()):
+        if not (rp.startswith('camxfiles/') and rp.endswith('Write.py')):
+            continue
+        m = src.mod(rp)
+        for q, fn in sorted(m.functions.items()):
+            if not q.startswith('ncf2') or '.' in q:
+                continue
+            fparam = fn.args.args[0].arg if fn.args.args else 'ncffile'
+            where = 'src/PseudoNetCDF/%s %s' % (rp, q)
+            # header arrays: names allocated with an explicit dtype whose codes are big-endian
+            be_arrays = set()
+            for st in iter_stmts(fn.body):
+                if isinstance(st, ast.Assign) and isinstance(st.targets[0], ast.Name) and isinstance(st.value, ast.Call):
+                    dts = [kw(c_, 'dtype') for c_ in ast.walk(st.value) if isinstance(c_, ast.Call) and kw(c_, 'dtype') is not None]
+                    dts += [c_.args[0] for c_ in ast.walk(st.value) if isinstance(c_, ast.Call) and (dotted(c_.func) or '').split('.')[-1] in ('zeros', 'empty', 'ones') and False]
+                    for d_ in dts:
+                        codes = [x.value for x in ast.walk(d_) if isinstance(x, ast.Constant) and isinstance(x.value, str)]
+                        if isinstance(d_, ast.Name):
+                            dd = [s2 for s2 in ast.walk(fn) if isinstance(s2, ast.Assign) and any(isinstance(t_, ast.Name) and t_.id == d_.id for t_ in s2.targets)]
+                            dd += [m.assigns[d_.id]] if d_.id in m.assigns else []
+                            codes = [x.value for d2 in dd for x in ast.walk(d2.value if isinstance(d2, ast.Assign) else d2) if isinstance(x, ast.Constant) and isinstance(x.value, str)]
+                            # composed of other named types: follow one more level
+                            for d2 in dd:
+                                for nm in [x.id for x in ast.walk(d2.value if isinstance(d2, ast.Assign) else d2) if isinstance(x, ast.Name)]:
+                                    d3 = [s3 for s3 in ast.walk(fn) if isinstance(s3, ast.Assign) and any(isinstance(t_, ast.Name) and t_.id == nm for t_ in s3.targets)]
+                                    codes += [x.value for s3 in d3 for x in ast.walk(s3.value) if isinstance(x, ast.Constant) and isinstance(x.value, str)]
+                        fmtcodes = [c_ for c_ in codes if re.search(r'[<>]?\d*[ifSdcU]\d*$|^[<>]', c_) and not re.match(r'^[A-Za-z_ ]+$', c_)]
+                        if fmtcodes and all('>' in c_ or re.search(r'S\d*$|>S', c_) or c_.endswith('S1') for c_ in fmtcodes):
+                            be_arrays.add(st.targets[0].id)
+            loopvars = {}
+            for lp in [x for x in ast.walk(fn) if isinstance(x, ast.For)]:
+                srcs = [n_.id for n_ in ast.walk(lp.iter) if isinstance(n_, ast.Name)]
+                for t_ in ast.walk(lp.target):
+                    if isinstance(t_, ast.Name):
+                        loopvars[t_.id] = srcs
+            for c in ast.walk(fn):
+                if not (isinstance(c, ast.Call) and isinstance(c.func, ast.Attribute) and c.func.attr in ('tobytes', 'tofile', 'tostring')):
+                    continue
+                st = api.stmt_of(c)
+                r = _paths.subst(c.func.value, _paths.dominating_env(fn, st, keep=tuple(be_arrays)))
+                # strip wrappers that keep the dtype
+                e = r
+                indexed = False
+                while True:
+                    if isinstance(e, ast.Subscript):
+                        indexed = True
+                    if isinstance(e, ast.Call) and dotted(e.func) in ('np.ma.filled', 'filled', 'np.ascontiguousarray', 'np.asarray') and e.args:
+                        e = e.args[0]
+                    elif isinstance(e, ast.Call) and isinstance(e.func, ast.Attribute) and e.func.attr in ('ravel', 'reshape', 'copy', 'squeeze', 'swapaxes', 'transpose', 'filled'):
+                        e = e.func.value
+                    elif isinstance(e, ast.Subscript):
+                        e = e.value
+                    elif isinstance(e, ast.Attribute) and e.attr == 'T':
+                        e = e.value
+                    else:
+                        break
+                n += 1
+                oid = '%s:%s' % (q, norm(c.func.value)[:40])
+                explicit = (isinstance(e, ast.Call) and isinstance(e.func, ast.Attribute) and e.func.attr == 'astype' and e.args and isinstance(e.args[0], ast.Constant)
+                            and str(e.args[0].value).startswith('>')) or \
+                    (isinstance(e, ast.Call) and (dotted(e.func) or '').split('.')[-1] in ('array', 'zeros', 'ones', 'empty') and kw(e, 'dtype') is not None
+                     and isinstance(kw(e, 'dtype'), ast.Constant) and str(kw(e, 'dtype').value).startswith('>'))
+                root = e.id if isinstance(e, ast.Name) else None
+                header = root in be_arrays or (root in loopvars and any(s_ in be_arrays for s_ in loopvars[root]))
+                # a scalar attribute (not an item of a table the reader left on the object: arrays carry their own byte order)
+                from_input = isinstance(e, ast.Attribute) and isinstance(e.value, ast.Name) and e.value.id == fparam and e.attr not in ('variables', 'dimensions') and not indexed
+                if explicit:
+                    ctx.ok(rule, oid, where, 'outermost conversion fixes the byte order')
+                elif header:
+                    ctx.ok(rule, oid, where, 'element of a header array allocated with a big-endian record type')
+                elif from_input:
+                    nbad += 1
+                    ctx.violation(Finding(rule, rp, q, st, 'attribute %s of the input file is emitted as it is: numpy scalars are stored in the byte order of the machine, so on a little-endian host the '
+                                          'four bytes are written reversed (a value of 1 reads back as 16777216) and a file that was read and written again is not the file that was read' % norm(e)))
+                else:
+                    ctx.undec(rule, oid, where, 'byte order of %s not established by the writer' % norm(e)[:50])
+    ctx.count('emission sites examined for byte order', n)
+    return n
+
+
 def check_varorder(ctx):
     src = ctx.src
     wm = src.mod(CAMX + 'cloud_rain/Write.py')
@@ -761,6 +849,8 @@ def run(ctx):
         ctx.ok('R-KEYPARSE', 'key parse', wvf, '4 sample keys (species with 0-2 underscores) parsed exactly')
     check_edgecells(ctx)
     check_varorder(ctx)
+    ctx.rule('R-BYTEORDER', 'every emitted value has a byte order fixed by the writer (big-endian conversion or big-endian header array), never that of an input attribute')
+    ctx.floor('emission sites examined for byte order', check_byteorder(ctx), 40)
     check_landuse(ctx)
     check_api(ctx, ctx.tier)
     ctx.assumptions += ['byte order is ignored when layouts are compared (readers default to big endian, writers spell it)',
